@@ -437,6 +437,12 @@ pub(crate) fn parse_cpulist(s: &str) -> Vec<usize> {
     out
 }
 
+/// Verification hook: exposes the crate-private cpulist parser.
+#[cfg(qe_verif)]
+pub fn verif_parse_cpulist(s: &str) -> Vec<usize> {
+    parse_cpulist(s)
+}
+
 fn read_cpulist(path: &Path) -> Option<Vec<usize>> {
     read_file(path).map(|s| parse_cpulist(&s))
 }
